@@ -148,6 +148,8 @@ def h_roundtrip(c):
     from pyqsp.LPoly import LAlg
     from pyqsp.decomposition import angseq
     phis = dec(c["phases"])
+    if c.get("as_int"):
+        phis = [int(x) for x in phis] if c["as_int"] == "list" else numpy.array([int(x) for x in phis])     # integer-typed phase vector
     g = LAlg.unitary_from_angles(phis)
     out = angseq(g)
     return {"phis": enc(numpy.asarray(out, dtype=float)), "len": len(out)}
@@ -157,7 +159,9 @@ def h_response(c):
     from pyqsp.response import ComputeQSPResponse
     adat = numpy.array(dec(c["adat"]), dtype=float)
     phis = dec(c["phases"])
-    if not c.get("phis_as_list"):
+    if c.get("phis_as_int"):
+        phis = [int(x) for x in phis] if c["phis_as_int"] == "list" else numpy.array([int(x) for x in phis])   # integer-typed phases
+    elif not c.get("phis_as_list"):
         phis = numpy.array(phis, dtype=float)
     kw = {}
     for k in ("signal_operator", "measurement"):
